@@ -77,7 +77,7 @@ reg("C02",
             "thorough": {"injected_eagain": 40000, "partial_acceptance": 4000, "retries_with_different_data": 6000, "complete_directions": 4000, "distinct_nontrivial": 100}},
     rule="one evaluation = one byte-stream connection history; non-trivial = at least one refusal or short read/write occurred; "
          "distinct = distinct (transport, mode, bidir, end, plan, size, capacity, observed-event bits) signatures",
-    assumptions=["tcp.user_timeout raised to 60 s", "capacity 0 is never passed to xcm_receive"])
+    assumptions=["tcp.user_timeout raised to 60 s"])
 
 reg("C03",
     title="a failed send leaves no trace; a successful one is delivered once",
